@@ -44,6 +44,22 @@ cocls::generator<long, long> source_arg(int s) {
     }
 }
 struct Observed { std::vector<long> vals; bool ended = false, threw = false; long code = -1; };
+// event-driven consumer: a callback awaiter on the future returned by the aggregate; its handler runs inline in whichever thread lets
+// a source reach its next yield and asks the aggregate for the next value from there
+template <typename G> struct CbAggConsumer : cocls::awaiter {
+    G &gen; size_t limit; Observed &o; cocls::future<long> f; cocls::promise<void> done;
+    CbAggConsumer(G &g, size_t limit, Observed &o) : gen(g), limit(limit), o(o) { set_resume_fn([](cocls::awaiter *me, void *) noexcept -> cocls::suspend_point<void> { auto *c = static_cast<CbAggConsumer *>(me); c->record(); return c->pump(); }); }
+    void record() { try { if (!f.has_value()) o.ended = true; else o.vals.push_back(f.value()); } catch (const vs::TestError &e) { o.threw = true; o.code = e.code; } }
+    cocls::suspend_point<void> pump() {
+        while (o.vals.size() < limit && !o.ended && !o.threw) {
+            f << [&] { return gen(); };
+            cocls::co_awaiter<cocls::future<long>> aw(f);
+            if (aw.subscribe(this)) return {};
+            record();
+        }
+        return done();
+    }
+};
 
 template <typename G> void consume_normal(G &gen, const int *style, size_t limit, Observed &o) {
     long argc = 1000;
@@ -73,7 +89,7 @@ template <typename G> cocls::async<void> consume_coro(G &gen, const int *style, 
 
 void dsim_scenario() {
     nsrc = dsim::choose(6);
-    int mode = dsim::choose(3);      // 0 normal code, 1 coroutine consumer, 2 sources with argument
+    int mode = dsim::choose(4);      // 0 normal code, 1 coroutine consumer, 2 sources with argument, 3 event-driven consumer (callback awaiter)
     int style[8]; for (int &s : style) s = dsim::choose(3);
     std::vector<long> exp_count(nsrc, 0); int thrower = -1, thrower2 = -1; size_t total = 0; int nthrow = 0;
     for (int s = 0; s < nsrc; s++) {
@@ -109,7 +125,9 @@ void dsim_scenario() {
         } else {
             std::vector<cocls::generator<long>> gens; for (int s = 0; s < nsrc; s++) gens.push_back(source(s));
             auto agg = cocls::generator_aggregator(std::move(gens));
-            if (mode == 1) consume_coro(agg, style, limit, o).join(); else consume_normal(agg, style, limit, o);
+            if (mode == 1) consume_coro(agg, style, limit, o).join();
+            else if (mode == 3) { CbAggConsumer<decltype(agg)> c(agg, limit, o); cocls::future<void> fin; c.done = fin.get_promise(); c.pump().clear(); fin.wait(); }
+            else consume_normal(agg, style, limit, o);
         }
         // aggregate destroyed here: blocks until in-flight asynchronous sources have delivered
     }
